@@ -25,7 +25,8 @@ class Op:
 class Ctx:
     """Per-party real execution context."""
 
-    def __init__(self, rt, prog, family):
+    def __init__(self, rt, prog, family, party=None):
+        self.party = party
         self.rt = rt
         self.prog = prog
         self.family = family
@@ -35,8 +36,10 @@ class Ctx:
         self.log = {}             # stmt path -> value opened mid-program
 
 
-async def run_real(rt, prog, family, ctx=None):
-    ctx = ctx or Ctx(rt, prog, family)
+async def run_real(rt, prog, family, party=None):
+    ctx = Ctx(rt, prog, family, party)
+    if party is not None:
+        party.obs['ctx'] = ctx
     env = ctx.env
     ops = family.OPS
     for idx, (opn, outs, args, p) in enumerate(prog['stmts']):
@@ -68,6 +71,7 @@ def run_ref(prog, family, cfg):
         res = ops[opn].ref(tctx, [env[v] for v in args], p)
         for v, r in zip(outs, res):
             env[v] = r
+    tctx['env'] = env
     return family.finish_ref(tctx, env, prog)
 
 
@@ -121,10 +125,12 @@ async def _eff_await_started(ctx, idx, outs, args, p):
 
 
 async def _eff_barrier(ctx, idx, outs, args, p):
+    tm = ctx.party.obs.get('task_monitor') if (ctx.party is not None and isinstance(idx, int)) else None
+    if tm is not None:
+        n0 = tm.before_barrier(ctx.rt.pid)
     await ctx.rt.barrier(p.get('name'))
-    obs = getattr(ctx, 'on_barrier', None)
-    if obs is not None:
-        obs(ctx, idx)
+    if tm is not None:
+        tm.after_barrier(ctx.rt.pid, n0, f'stmt {idx}')
 
 
 async def _eff_throttle(ctx, idx, outs, args, p):
@@ -143,11 +149,11 @@ async def _eff_ucoro(ctx, idx, outs, args, p):
     async def user_coro(*xs):
         await rt.returnType(fam.rettype(ctx), n_out)
         sctx = Ctx.__new__(Ctx)
+        sctx.party = None
         sctx.rt, sctx.prog, sctx.family, sctx.T = rt, sub, fam, T
         sctx.env = dict(zip(sub['params'], xs))
         sctx.public = ctx.public
         sctx.log = ctx.log
-        sctx.on_barrier = None
         for jdx, (opn, o, ar, pp) in enumerate(sub['stmts']):
             eff = EFFECTS.get(opn)
             if eff is not None:
